@@ -1,5 +1,5 @@
 //@file src/half_connection/frame_queue.rs
-//@props C15 C03 C12
+//@props C15 C03 C12 C02
 #[cfg(test)]
 mod verif_native {
     use super::*;
@@ -70,4 +70,19 @@ mod verif_native {
             }
         }
     }
+    // C02/C12 enabling step: the frame window test compares DISTANCES from the window base, so it keeps working when the 32-bit
+    // frame id wraps (a comparison of absolute ids goes permanently false once base + size wraps: nothing is ever sent again)
+    #[test]
+    fn verif_c02_can_push_across_frame_id_wrap() {
+        for &base in &[0u32, 1, u32::MAX - 4096, u32::MAX - 4095, u32::MAX - 10, u32::MAX - 1, u32::MAX] {
+            let mut fq = FrameQueue::new(8, 8, base);
+            for k in 0..8u32 {
+                assert!(fq.can_push(), "base {:#x}: frame {} of 8 refused", base, k);
+                assert_eq!(fq.next_id(), base.wrapping_add(k));
+                fq.push(10, 1000 + k as u64, Vec::new().into_boxed_slice(), false);
+            }
+            assert!(!fq.can_push(), "base {:#x}: a ninth frame fits an 8-frame window", base);
+        }
+    }
 }
+
